@@ -336,9 +336,10 @@ def nontrivial(seq, ob):
 
 
 def run_policy_check(chk, pid, proj, opts, oracle_pid=None, n_quick=300, n_thorough=5000, extra_seqs=None,
-                     extra_oracle=None, known_sig=None):
+                     extra_oracle=None, known_sig=None, theorems_ok=None, cov_key=None, keep_result=None):
     oracle = ORACLES.get(oracle_pid or pid)
-    theorems_ok = chk.check_theorems()
+    if theorems_ok is None:
+        theorems_ok = chk.check_theorems()
     seqs = list(load_corpus(pid))
     n = n_quick if chk.tier == "quick" else n_thorough
     seqs += [gen_pseq(chk.rng, opts) for _ in range(n)]
@@ -358,7 +359,12 @@ def run_policy_check(chk, pid, proj, opts, oracle_pid=None, n_quick=300, n_thoro
         failing, errors = compare_in_coq(chk, seqs, obs, proj)
     st = stats(seqs, obs)
     distinct = {k for k in (nontrivial(s, o) for s, o in zip(seqs, obs)) if k}
-    chk.coverage.update(
+    cov_target = chk.coverage if cov_key is None else chk.coverage.setdefault(cov_key, {})
+    if cov_key is not None:
+        chk.coverage["evaluations"] = chk.coverage.get("evaluations", 0) + len(seqs)
+        chk.coverage["distinct_nontrivial"] = chk.coverage.get("distinct_nontrivial", 0) + len(distinct)
+        chk.coverage["traces_validated_against_impl"] = chk.coverage.get("traces_validated_against_impl", 0) + (0 if errors else st["calls"])
+    cov_target.update(
         evaluations=len(seqs), distinct_nontrivial=len(distinct),
         traces_validated_against_impl=0 if errors else st["calls"],
         rule="sequences of 2-7 calls (sync/async, call/execute, with and without a retry component) on Policy objects "
@@ -370,6 +376,10 @@ def run_policy_check(chk, pid, proj, opts, oracle_pid=None, n_quick=300, n_thoro
     )
     if errors:
         chk.violation({"kind": "correspondence-error", "what": "cases file did not evaluate", "errors": errors[:3]}, no_input=True)
+    if keep_result is not None:
+        keep_result.update(seqs=seqs, obs=obs, bad=bad, failing=failing)
+    if keep_result is not None and keep_result.get("defer"):
+        return seqs, obs
 
     def fails_batch(cands):
         ob = run_impl(cands, jobs=4)
